@@ -168,6 +168,7 @@ static RunSpec derive_spec(const std::string& world, int variant, uint64_t run_s
   if (world == "c16") {
     s.maskA = variant == 0 ? MASK_ALL : masks[rc.below(5)];
     g.adjacent_slots = variant == 1;
+    g.life_ops = true;
     g.module_ops = true;
     g.zero_sizes = true;
     g.min_calls = 6;
